@@ -144,10 +144,14 @@ def adapter_cases(ck, rng, n):
         stack, asp, osp = random_stack(rng, spec, depth=int(rng.integers(0, 3)), allow=["Identity", "TimeLimit", "ClipReward", "TransformReward", "ClipAction", "RescaleAction"])
         env = build_stack(TabEnv(spec), stack)
         T = int(rng.integers(1, 10))
-        seed = int(rng.integers(0, 2**30))
-        # ---- Gymnasium adapter: root = jr.key(seed); key_t = root.(2,0)^t.(2,1)
+        seed = int(rng.choice([0, 0, 1, int(rng.integers(0, 2**30)), int(rng.integers(0, 2**30))]))
+        # ---- Gymnasium adapter: root = jr.key(seed); key_t = root.(2,0)^t.(2,1).  The recorded episode starts either on a
+        # fresh adapter, or on a USED one (an earlier episode under another seed, then reset(seed=seed): the earlier use must
+        # not matter), or by reset() WITHOUT a seed after m steps (the key chain of the earlier seed continues).
+        variant = ["fresh", "used-reseed", "used-continue"][int(rng.integers(0, 3))]
+        m_pre = int(rng.integers(0, 4))
         tree = KeyTree([jr.key(seed)])
-        root = ((0, 0),)
+        root = ((0, 0),) + (((2, 0),) * (m_pre + 1) if variant == "used-continue" else ())
         paths = []
         cur = root
         keys_t = []
@@ -157,9 +161,20 @@ def adapter_cases(ck, rng, n):
             paths += subtree(sub, [2] if t == 0 else [4])
             cur = cur + ((2, 0),)
         raw_lit, raw_json = rawtbl_lit(tree, paths)
-        ck.current_case = {"spec": spec, "stack": stack, "adapter": "LeraxToGymEnv", "seed": seed}
+        ck.current_case = {"spec": spec, "stack": stack, "adapter": "LeraxToGymEnv", "seed": seed, "variant": variant, "steps_before": m_pre}
         g = LeraxToGymEnv(env)
-        obs, info = g.reset(seed=seed)
+
+        def a_in_of(a):
+            return np.asarray(a) if asp[0] == "disc" else np.asarray(a, dtype=float).reshape(env.action_space.shape)
+
+        if variant == "fresh":
+            obs, info = g.reset(seed=seed)
+        else:
+            g.reset(seed=(seed if variant == "used-continue" else int(rng.integers(1, 2**30))))
+            for _ in range(m_pre):
+                g.step(a_in_of(rand_action(rng, asp)))
+            obs, info = g.reset(seed=seed) if variant == "used-reseed" else g.reset()
+        ck.count("l2g:" + variant + (":seed0" if seed == 0 else ""))
         cnt, s = canon_state(g.state)
         reset = (cnt, s, obs_list(obs), 0.0, False, False, float(info["x"]))
         steps, outs = [], []
@@ -173,7 +188,7 @@ def adapter_cases(ck, rng, n):
                f"{listl('(' + ql(a) + ', ' + path_lit(p) + ')' for a, p in steps)} {imp_out_lit(*reset)} "
                f"{listl(imp_out_lit(*o) for o in outs)} {sp_lit(space_desc(env.action_space))} {sp_lit(space_desc(env.observation_space))}")
         gym_cases.append(lit)
-        gym_j.append({"adapter": "LeraxToGymEnv", "spec": spec, "stack": stack, "seed": seed, "actions": [a for a, _ in steps], "impl_reset": reset, "impl_steps": outs})
+        gym_j.append({"adapter": "LeraxToGymEnv", "spec": spec, "stack": stack, "seed": seed, "start": variant, "steps_before_the_recorded_reset": m_pre, "actions": [a for a, _ in steps], "impl_reset": reset, "impl_steps": outs})
         ck.case_seen(("l2g", idx, T), sample=None); ck.count("adapter:LeraxToGymEnv")
         # ---- Gymnax adapter: explicit keys
         roots = [jr.key(int(seed + 17 + t)) for t in range(T + 1)]
